@@ -31,12 +31,24 @@ type Hooks interface {
 var H Hooks
 
 type (
-	Locker    = sync.Locker
-	Once      = sync.Once
-	WaitGroup = sync.WaitGroup
-	Cond      = sync.Cond
-	Map       = sync.Map
+	Locker = sync.Locker
+	Once   = sync.Once
+	Cond   = sync.Cond
+	Map    = sync.Map
 )
+
+// WaitGroup mirrors sync.WaitGroup. WaitHook, when set and returning true, has taken a Wait over
+// (the harness ends a main goroutine that would otherwise wait for ever).
+type WaitGroup struct{ sync.WaitGroup }
+
+var WaitHook func() bool
+
+func (w *WaitGroup) Wait() {
+	if h := WaitHook; h != nil && h() {
+		return
+	}
+	w.WaitGroup.Wait()
+}
 
 func NewCond(l Locker) *Cond { return sync.NewCond(l) }
 
